@@ -84,7 +84,7 @@ pub struct Faults {
 #[derive(Clone, Debug)]
 pub struct Profile {
     /// weights per op kind, indexed as in `OPK_*`
-    pub w: [u32; 19],
+    pub w: [u32; 21],
     pub faults: Faults,
     pub min_len: u32,
     pub mean_len: u32,
@@ -110,10 +110,12 @@ pub const OPK_CYCLE: usize = 15;
 pub const OPK_NEST: usize = 16;
 pub const OPK_REPLACE: usize = 17;
 pub const OPK_AUDITALL: usize = 18;
+pub const OPK_BULK: usize = 19;
+pub const OPK_BULK_DESTROY: usize = 20;
 
 pub fn profile_for(prop: &str, rng: &mut Rng, cfg: BuildCfg) -> Profile {
     // base mix (swarm member)
-    let mut w: [u32; 19] = [30, 8, 0, 22, 10, 6, 4, 10, 2, 2, 0, 0, 1, 0, 0, 2, 0, 1, 0];
+    let mut w: [u32; 21] = [30, 8, 0, 22, 10, 6, 4, 10, 2, 2, 0, 0, 1, 0, 0, 2, 0, 1, 0, 0, 0];
     match rng.below(6) {
         0 => {
             // churn heavy
@@ -294,7 +296,15 @@ pub fn profile_for(prop: &str, rng: &mut Rng, cfg: BuildCfg) -> Profile {
         min_len = 30;
         mean_len = 50;
     }
-    let _ = &mut max_len;
+    // magnitude member (~3 % of runs): populations of hundreds to thousands, long reuse cycles
+    if rng.chance(1, 32) && prop != "C11" {
+        w[OPK_BULK] = 6;
+        w[OPK_BULK_DESTROY] = 6;
+        w[OPK_CYCLE] += 4;
+        min_len = 4;
+        mean_len = 8;
+        max_len = 16;
+    }
     Profile { w, faults: f, min_len, mean_len, max_len }
 }
 
@@ -442,7 +452,7 @@ pub fn gen_op(rng: &mut Rng, sh: &WorldShape, pr: &Profile) -> Op {
         }
         OPK_PRESET => Op::Preset { a, slot_back: rng.below(4) as u32, ver_back: rng.below(4) as u32, bits: gen_bits(rng) },
         OPK_CYCLE => {
-            let top = if rng.chance(1, 4) { 40 } else { 6 };
+            let top = if pr.w[OPK_BULK] > 0 && rng.chance(1, 2) { 600 } else if rng.chance(1, 4) { 40 } else { 6 };
             Op::Cycle { a, n: 1 + rng.below(top) as u32 }
         }
         OPK_NEST => {
@@ -457,6 +467,8 @@ pub fn gen_op(rng: &mut Rng, sh: &WorldShape, pr: &Profile) -> Op {
             Op::Nest { accs, at: rng.below(8) as u32 }
         }
         OPK_REPLACE => Op::ReplaceArch { a, cap: None },
+        OPK_BULK => Op::Bulk { a, n: [70u32, 130, 257, 300, 520, 1030, 2100, 4200][rng.weighted(&[6, 6, 6, 5, 4, 3, 2, 1])], p: rng.next() },
+        OPK_BULK_DESTROY => Op::BulkDestroy { a, stride: 1 + rng.below(9) as u32, phase: rng.below(9) as u32 },
         _ => Op::AuditAll,
     }
 }
@@ -480,6 +492,8 @@ fn flip_mask(rng: &mut Rng, bits: u64) -> u32 {
 
 pub fn gen_caps(rng: &mut Rng, sh: &WorldShape) -> Vec<u32> {
     let style = rng.below(6);
+    let big = rng.chance(1, 40);
+    let salt = rng.below(8) as usize;
     (0..sh.narch)
         .map(|_| match style {
             0 => 0,
@@ -495,6 +509,10 @@ pub fn gen_caps(rng: &mut Rng, sh: &WorldShape) -> Vec<u32> {
             }
             _ => rng.below(12) as u32,
         })
+        .map(|c: u32| c)
+        .collect::<Vec<u32>>()
+        .into_iter()
+        .map(|c| if big { [100u32, 255, 256, 257, 1000, 1024, 4096, 70000][(c as usize + salt) % 8] } else { c })
         .collect()
 }
 
